@@ -91,10 +91,10 @@ def fill_block(ctx, P, cg):
     if iv is None or len(offs) != 1:
         raise AnalysisBroken("FillBlock: slot loop / consumed-counter idiom not recognised (loop var %s, counters %s)" % (iv, offs))
     off = offs[0]
-    loopkey = r"for\(0; %s < txn_available\.size\(\)\)" % iv
+    loopkey = r"(for\(0; %s < txn_available\.size\(\)\)|each\(txn_available\))" % iv
     rungs = [
         Rung("stored-header-null", "HNULL", {"HNULL": "header.IsNull()"}),
-        Rung("missing-exhausted", "!AVAIL && !MORE", {"AVAIL": "txn_available[%s]" % iv, "MORE": "%s < %s.size()" % (off, miss)}, loop=loopkey),
+        Rung("missing-exhausted", "!AVAIL && !MORE", {"AVAIL": ["txn_available[%s]" % iv, "each(txn_available)"], "MORE": "%s < %s.size()" % (off, miss)}, loop=loopkey),
         Rung("missing-not-used-up", "!EXACT", {"EXACT": "%s == %s.size()" % (off, miss)}),
         Rung("mutated", "MUTATED", {"MUTATED": mut}),
     ]
@@ -124,7 +124,7 @@ def fill_block(ctx, P, cg):
         idx, val = s.expr[2][2], peel(s.expr[3])
         if val[0] == "call" and val[1] == "std::move":
             val = peel(val[2])
-        fb, mp, un = F.bind_atoms(s.formula(subst), {"AVAIL": "txn_available[%s]" % iv})
+        fb, mp, un = F.bind_atoms(s.formula(subst), {"AVAIL": ["txn_available[%s]" % iv, "each(txn_available)"]})
         kind = None
         if match(["idx", [".", ["this"], PDB + "txn_available"], idx], val) and F.implies(fb, F.parse("AVAIL")):
             kind = "local"
